@@ -55,6 +55,7 @@ type FuncContract struct {
 	Pure      bool
 	NoOverflow bool
 	NilRecv   bool
+	CrashInvs []Clause // must hold in every state a crash inside an effectful call can leave behind
 	Callers   []string // the only functions allowed to call this one (non-test module code)
 	HasCallers bool
 	Props     []string
@@ -156,7 +157,7 @@ func loadContracts(repo string) (*Contracts, error) {
 var clauseKeywords = map[string]bool{
 	"func": true, "type": true, "pred": true, "fun": true, "lemma": true,
 	"requires": true, "ensures": true, "modifies": true, "invariant": true, "decreases": true,
-	"update": true, "option": true, "ghost": true, "guarded": true, "props": true, "callsite": true, "havoc": true, "callers": true, "pool": true, "yields": true,
+	"update": true, "option": true, "ghost": true, "guarded": true, "props": true, "callsite": true, "havoc": true, "callers": true, "pool": true, "yields": true, "crash_invariant": true,
 }
 
 func (C *Contracts) errorf(format string, a ...any) {
@@ -421,7 +422,7 @@ func (C *Contracts) parseFile(pkg, file, src string) {
 				gu.LHS, gu.RHS = le, re
 			}
 			curF.Updates = append(curF.Updates, gu)
-		case "requires", "ensures", "invariant", "decreases", "callsite":
+		case "requires", "ensures", "invariant", "decreases", "callsite", "crash_invariant":
 			cl := Clause{Line: where}
 			body := rest
 			callee := ""
@@ -475,6 +476,9 @@ func (C *Contracts) parseFile(pkg, file, src string) {
 				curF.Verify = true
 			case kw == "callsite":
 				curF.CallSites = append(curF.CallSites, CallSiteReq{Callee: qual(callee), Clause: cl})
+				curF.Verify = true
+			case kw == "crash_invariant":
+				curF.CrashInvs = append(curF.CrashInvs, cl)
 				curF.Verify = true
 			}
 		default:
